@@ -55,9 +55,17 @@ def lit(s: str):
     return _LITS[s]
 
 
+truthyV = z3.Function("truthy", Val, Bool)  # Python truthiness of an attribute value
+
+
 def lits_distinct():
+    """global axioms added to every obligation: distinct string literals, truthiness of values"""
     ks = list(_LITS.values())
-    return [z3.Distinct(*ks)] if len(ks) > 1 else []
+    out = [z3.Distinct(*ks)] if len(ks) > 1 else []
+    i = z3.Int("i!tv")
+    b = z3.Bool("b!tv")
+    out += [z3.Not(truthyV(VNone)), z3.ForAll([i], truthyV(VInt(i)) == (i != 0)), z3.ForAll([b], truthyV(VBool(b)) == b)]
+    return out
 
 
 def is_sym(v):
